@@ -587,6 +587,7 @@ func Run(r *ev.Run) {
 	jsn := &alphabet{name: "json", atoms: jsonAtoms}
 	expr := &alphabet{name: "expression", atoms: exprAtoms}
 	dirv := &alphabet{name: "directive", atoms: directiveAtoms}
+	call := &alphabet{name: "call", atoms: callAtoms}
 
 	type job struct {
 		a       *alphabet
@@ -613,6 +614,8 @@ func Run(r *ev.Run) {
 			{dirv, 5, identity, eLexTemplate | eTemplate},
 			{dirv, 4, quoted, eLexConfig | eConfig},
 			{dirv, 4, heredoc, eLexConfig | eConfig},
+			{call, 6, identity, eLexConfig | eExpr | eTraversal},
+			{call, 5, attr, eConfig},
 		}
 	} else {
 		jobs = []job{
@@ -628,6 +631,8 @@ func Run(r *ev.Run) {
 			{dirv, 4, identity, eLexTemplate | eTemplate},
 			{dirv, 3, quoted, eLexConfig | eConfig},
 			{dirv, 3, heredoc, eLexConfig | eConfig},
+			{call, 5, identity, eLexConfig | eExpr | eTraversal},
+			{call, 4, attr, eConfig},
 		}
 	}
 
